@@ -92,8 +92,13 @@ inline bool read_line(std::string &line) {
     return !line.empty();
 }
 
+// One output line per input line. With -DVERIF_LEDGER (and ledger.hpp included first) the
+// allocation trace since the previous line is appended after " ##L ".
 inline void emit(const std::string &s) {
     fputs(s.c_str(), stdout);
+#if defined(VERIF_LEDGER) && defined(VERIF_LEDGER_HPP)
+    fputs(Ledger::get().take().c_str(), stdout);
+#endif
     fputc('\n', stdout);
     fflush(stdout);
 }
